@@ -125,7 +125,9 @@ InvPurgeKeepsWarnings == PurgeKeepsWarnings(m)
 InvClosedNoWarnings  == ClosedNoWarnings(m)
 InvRemovedUnused     == RemovedSpacesUnused(m)
 InvPurgeKeepsIndicators == (Ready /\ AllUnique(m)) => IndVector(PurgeSpec(m)) = IndVector(m)
-InvOrderIndependent  == (Ready /\ AllUnique(m)) => IndVector(Reversed(m)) = IndVector(m)
+\* (a space under several ceilings of different thickness takes its net height from the first one in model order: the
+\*  code's documented simplification, modelled as it is and recorded as a known finding of C08)
+InvOrderIndependent  == (Ready /\ AllUnique(m) /\ ~SeveralCeilings(m)) => IndVector(Reversed(m)) = IndVector(m)
 \* the envelope rule never counts an element whose space is unknown
 InvTenvNeedsSpace == \A i \in DOMAIN m.walls :
      (m.walls[i].bounds # "INTERIOR" /\ ~Has(m.spaces, m.walls[i].space)) => ~Tenv(m, m.walls[i])
